@@ -313,6 +313,8 @@ fn run_inner(p: &Program) -> Result<Outcome, Outcome> {
         ("call:legitimately-pending", "call:legitimately-pending"),
         ("call:aborted-by-drop", "call:aborted-by-drop"),
         ("promise-held", "promise-held"),
+        ("promise:aborted-awaited", "promise:aborted-awaited"),
+        ("promise:aborted-resolved", "promise:aborted-resolved"),
         ("event:received", "event:received"),
         ("chan:items-flowed", "item:received"),
         ("chan:item-order-checked>=2", "item:order-checked>=2"),
